@@ -863,6 +863,58 @@ def r12_10(ctx, counts: dict[str, int]) -> RuleResult:
     counts['escape_letters'] = n
     return res
 
+def r12_11(ctx, counts: dict[str, int]) -> RuleResult:
+    """a back-reference \\n is defined iff n <= number of groups opened so far"""
+    model: Model = ctx.model
+    res = RuleResult(
+        'R12.11', 'BACKREF-BOUND-INCLUSIVE',
+        'In translate_pattern the counter of the capturing groups opened so far (the name '
+        'incremented where a capturing `(` is translated) bounds the back-references: \\n is a '
+        'reference iff n <= counter, and the digits that follow are part of it only while the '
+        'longer number still satisfies that. Every comparison between the counter and a number '
+        'read from the pattern therefore splits at n <= counter | n > counter — whatever its '
+        'polarity: `counter < n`, `n > counter`, `n <= counter`, `counter >= n` are the four '
+        'admissible forms; `n < counter` or `counter <= n` put the reference to the LAST group '
+        'on the wrong side ((a)…(j)\\10 became \\1[0]).')
+    mod = model.modules.get('elementpath.regex.patterns')
+    f = mod.toplevel_function('translate_pattern') if mod is not None else None
+    if f is None:
+        raise AnalysisError('regex.patterns.translate_pattern vanished')
+    counters = {x.target.id for x in walk_local(f.node) if isinstance(x, ast.AugAssign)
+                and isinstance(x.target, ast.Name) and isinstance(x.op, ast.Add)
+                and 'group' in x.target.id}
+    if not counters:
+        raise AnalysisError(f'{f.key}: no group counter (a name containing "group" incremented)')
+    n = 0
+    for x in walk_local(f.node):
+        if not (isinstance(x, ast.Compare) and len(x.ops) == 1):
+            continue
+        l, r, op = x.left, x.comparators[0], x.ops[0]
+        lc = isinstance(l, ast.Name) and l.id in counters
+        rc = isinstance(r, ast.Name) and r.id in counters
+        if lc == rc or not isinstance(op, (ast.Lt, ast.LtE, ast.Gt, ast.GtE)):
+            continue
+        other = r if lc else l
+        if isinstance(other, ast.Constant):
+            continue
+        n += 1
+        # normalise to  number OP counter
+        if lc:
+            op = {ast.Lt: ast.Gt, ast.LtE: ast.GtE, ast.Gt: ast.Lt, ast.GtE: ast.LtE}[type(op)]()
+        good = isinstance(op, (ast.Gt, ast.LtE))
+        res.instances.append(f'{f.key}: L{x.lineno} `{stmt_text(x)}` splits at n <= counter={good}')
+        if good:
+            res.ok()
+        else:
+            res.fail(finding('R12.11', f, x, f'{stmt_text(x)[:40]}',
+                             f'`{stmt_text(x)}` treats a reference number equal to the number '
+                             f'of groups as undefined: the reference to the last group is cut '
+                             f'((a)(b)(c)(d)(e)(f)(g)(h)(i)(j)\\10 is translated to \\1[0])'))
+    counts['backref_bound_comparisons'] = n
+    if n < 1:
+        raise AnalysisError(f'{f.key}: no comparison between the group counter and a reference')
+    return res
+
 
 def run(ctx) -> dict:
     counts: dict[str, int] = {}
@@ -875,7 +927,7 @@ def run(ctx) -> dict:
                r13_4(ctx, counts), r12_5(ctx, counts), r13_6(ctx, counts),
                r13_7(ctx, counts), r12_6(ctx, counts),
                r12_7(ctx, counts), r13_9(ctx, counts), r12_8(ctx, counts),
-               r12_9(ctx, counts), r12_10(ctx, counts)]
+               r12_9(ctx, counts), r12_10(ctx, counts), r12_11(ctx, counts)]
     # process-wide state is written only by the reviewed inventory (no new caches)
     from .c19_global import r19_5 as _r19_5
     _state = _r19_5(ctx, counts, lambda f: f.module.name.startswith('elementpath.regex'), 2)
